@@ -18,6 +18,7 @@ import Ctrmml.Proofs.SeekEnd
 import Ctrmml.Proofs.SeekFrom
 import Ctrmml.Proofs.SeekFlat
 import Ctrmml.Proofs.SeekFlatL
+import Ctrmml.Proofs.SeekLoop1
 namespace Ctrmml.C12
 open Ctrmml Player PlayerCh
 
@@ -415,6 +416,65 @@ theorem C12_example_flatL_lands :
     let s := skipTicks exSong flatLRoot pdAll 20 initPS
     s.acc.enabled = true ∧ s.acc.playTime = 20 ∧ getCh s.ch Tables.ev_VOL_FINE = 9 ∧
     s = iter (playTick exSong flatLRoot pdAll) 21 initPS := by
+  decide +kernel
+
+/-! ## Round 3, part 4: counted loops without nesting
+
+`Loop1 root` (Proofs/SeekLoop1.lean, decidable): the root track consists of "other" events (not
+PLATFORM, not DRUM_MODE) and non-nested, closed `[ … ] n` loops with `0 ≤ n ≤ 255` and no
+LOOP_BREAK (no SEGNO / JUMP / END), and `W root + 255 * (length + 1) < 100000` where `W` counts 1
+per event and `255 * (length + 1) + 1` per LOOP_START -- a bound on the number of steps of any run
+of the fetch loop (model budget; the C++ has none). -/
+
+/-- **A track with non-nested counted loops never records an error** (invariant: the stack is
+empty or one LOOP frame whose start lies in the same loop body as the position; count in 0..255;
+measure = weight of the rest of the track + count * (length+1)). -/
+theorem noerr_of_loop1 (song : Song) (root : List Event) (pd : Int → Bool) (h : Loop1 root) (n : Nat) :
+    (iter (playTick song root pd) n initPS).err = none := by
+  have hpt : playTick song root pd = playTickS song root pd := funext (playTick_eq song root pd)
+  rw [hpt]
+  exact (iter_loop1 song root pd h n initPS (initPS_loop1 root h)).err
+
+/-- **Seeking = playing on tracks with non-nested counted loops, no aliveness / no-error
+hypothesis** -/
+theorem C12_seek_eq_play_loop1 (song : Song) (root : List Event) (pd : Int → Bool) (h : Loop1 root)
+    (n : Nat) (hn : n ≥ 1) :
+    obs (skipTicks song root pd n initPS) = obs (iter (playTick song root pd) (n + 1) initPS) :=
+  C12_seek_eq_play_noerr song root pd n hn (noerr_of_loop1 song root pd h n)
+
+/-- whole-state equality while the track is enabled -/
+theorem C12_seek_eq_play_loop1_enabled (song : Song) (root : List Event) (pd : Int → Bool) (h : Loop1 root)
+    (n : Nat) (hn : n ≥ 1) (hen : (iter (playTick song root pd) n initPS).acc.enabled = true) :
+    skipTicks song root pd n initPS = iter (playTick song root pd) (n + 1) initPS :=
+  C12_seek_eq_play_of_alive_last song root pd n hn ⟨hen, noerr_of_loop1 song root pd h n⟩
+
+/-- `[ c:2:1 k+2 ]3 v5 [ d:1:0 ]2 e:1:1` -/
+def loopRoot : List Event :=
+  [ { type := Tables.ev_LOOP_START, param := 0, on := 0, off := 0 },
+    { type := Tables.ev_NOTE, param := 1, on := 2, off := 1 },
+    { type := Tables.ev_TRANSPOSE_REL, param := 2, on := 0, off := 0 },
+    { type := Tables.ev_LOOP_END, param := 3, on := 0, off := 0 },
+    { type := Tables.ev_VOL, param := 5, on := 0, off := 0 },
+    { type := Tables.ev_LOOP_START, param := 0, on := 0, off := 0 },
+    { type := Tables.ev_NOTE, param := 2, on := 1, off := 0 },
+    { type := Tables.ev_LOOP_END, param := 2, on := 0, off := 0 },
+    { type := Tables.ev_NOTE, param := 3, on := 1, off := 1 } ]
+
+theorem loopRoot_loop1 : Loop1 loopRoot := by decide
+
+/-- nested loops and loops with a break are outside the class -/
+example : ¬ Loop1 exRoot := by decide
+
+example : obs (skipTicks exSong loopRoot pdAll 10 initPS) = obs (iter (playTick exSong loopRoot pdAll) 11 initPS) :=
+  C12_seek_eq_play_loop1 exSong loopRoot pdAll loopRoot_loop1 10 (by decide)
+
+/-- evaluated: a seek by 10 lands in the second pass of the second loop (three passes of the
+first loop applied the transpose three times) -/
+theorem C12_example_loop1_lands :
+    let s := skipTicks exSong loopRoot pdAll 10 initPS
+    s.acc.enabled = true ∧ s.acc.playTime = 10 ∧ getCh s.ch Tables.ev_TRANSPOSE = 6 ∧
+    getCh s.ch Tables.ev_VOL_FINE = 5 ∧ s.ch.lastNote = 2 ∧ s.core.stack.length = 1 ∧
+    s = iter (playTick exSong loopRoot pdAll) 11 initPS := by
   decide +kernel
 
 end Ctrmml.C12
